@@ -25,35 +25,67 @@ func runC05(c *core.Ctx) {
 	c.Clause("C05.key", func() {
 		f := c.Fn(vfIdx + ".ForklessCause")
 		a, b := f.Param(0), f.Param(1)
-		// the key expression (a local holding it is looked through) is the two-field literal whose first
-		// field (in declaration order, whatever the order of a keyed literal) is a and whose second is b
-		keyOK := func(e ast.Expr) bool {
+		// the key expression (a local holding it is looked through) is a two-field struct literal. Its
+		// elements are matched to the fields BY FIELD OBJECT (a positional element takes the field of its
+		// position, a keyed one the field it names), so neither the declaration order of the fields nor the
+		// order/keyedness of the literal matters. keyOf returns which parameter each field receives.
+		keyOf := func(e ast.Expr) (map[*types.Var]*types.Var, types.Type) {
 			cl, ok := resolveLocal(f, e).(*ast.CompositeLit)
 			if !ok || len(cl.Elts) != 2 {
-				return false
+				return nil, nil
 			}
-			st, _ := f.Info().TypeOf(cl).Underlying().(*types.Struct)
+			tv := f.Info().TypeOf(cl)
+			if tv == nil {
+				return nil, nil
+			}
+			st, _ := tv.Underlying().(*types.Struct)
 			if st == nil || st.NumFields() != 2 {
+				return nil, nil
+			}
+			m := map[*types.Var]*types.Var{}
+			for i, el := range cl.Elts {
+				fld, val := st.Field(i), el
+				if kv, keyed := el.(*ast.KeyValueExpr); keyed {
+					id, isID := kv.Key.(*ast.Ident)
+					if !isID {
+						return nil, nil
+					}
+					fld = nil
+					for j := 0; j < 2; j++ {
+						if st.Field(j).Name() == id.Name {
+							fld = st.Field(j)
+						}
+					}
+					val = kv.Value
+				}
+				pv := canonVar(f, varOf(f, val))
+				if fld == nil || pv == nil {
+					return nil, nil
+				}
+				if _, dup := m[fld]; dup {
+					return nil, nil
+				}
+				m[fld] = pv
+			}
+			return m, tv
+		}
+		// the ordered pair: the two fields receive a and b, one each (so (a, b) and (b, a) are different
+		// keys), and the read side and the write side give the SAME field the SAME parameter
+		keysAgree := func(g, w ast.Expr) bool {
+			mg, tg := keyOf(g)
+			mw, tw := keyOf(w)
+			if len(mg) != 2 || len(mw) != 2 || tg == nil || tw == nil || !types.Identical(tg, tw) {
 				return false
 			}
-			var elems [2]ast.Expr
-			for i, el := range cl.Elts {
-				kv, keyed := el.(*ast.KeyValueExpr)
-				if !keyed {
-					elems[i] = el
-					continue
-				}
-				id, isID := kv.Key.(*ast.Ident)
-				if !isID {
+			seenA, seenB := false, false
+			for fld, pv := range mg {
+				if mw[fld] != pv {
 					return false
 				}
-				for j := 0; j < 2; j++ {
-					if st.Field(j).Name() == id.Name {
-						elems[j] = kv.Value
-					}
-				}
+				seenA = seenA || pv == a
+				seenB = seenB || pv == b
 			}
-			return elems[0] != nil && elems[1] != nil && canonVar(f, varOf(f, elems[0])) == a && canonVar(f, varOf(f, elems[1])) == b
+			return seenA && seenB && a != b
 		}
 		gets := f.CallsMatching(func(cs *core.CallSite) bool {
 			return cs.Name == "utils/simplewlru.Cache.Get" && fieldNameOf(f, cs.Recv()) == fcCache
@@ -62,7 +94,7 @@ func runC05(c *core.Ctx) {
 			return cs.Name == "utils/simplewlru.Cache.Add" && fieldNameOf(f, cs.Recv()) == fcCache
 		})
 		c.Need(len(gets) == 1 && len(adds) == 1, "ForklessCause reads and fills its pair cache once each")
-		c.Check(keyOK(gets[0].Call.Args[0]) && keyOK(adds[0].Call.Args[0]), "pair cache is keyed by the ordered pair (a, b) on both sides", "T14 key agreement", f.Pos(), "Get and Add use kv{a, b}", "the pair cache is read and written under different keys (a query can return the answer of another pair)")
+		c.Check(keysAgree(gets[0].Call.Args[0], adds[0].Call.Args[0]), "pair cache is keyed by the ordered pair (a, b) on both sides", "T14 key agreement", f.Pos(), "Get and Add use kv{a, b}", "the pair cache is read and written under different keys (a query can return the answer of another pair)")
 		// the cached value is the computed result for the same pair
 		rv := varOf(f, adds[0].Call.Args[1])
 		okV := false
